@@ -666,7 +666,10 @@ def check_transform_attr(ctx):
     D, d, U = fixed_unpack(ctx, pf)
     ap = attr_params(ctx, c)
     cur = cursor_loops(D)
-    attrs = [u for u in unpack_calls(D) if upos(u)[2] is not None and strip_ids(upos(u)[2])[0] == 'acc']
+    def walks(t):
+        t = strip_ids(t)
+        return t[0] == 'acc' or (t[0] == 'elem' and tq.is_call(t[1], 'builtins.range'))
+    attrs = [u for u in unpack_calls(D) if upos(u)[2] is not None and walks(upos(u)[2])]
     ok = len(attrs) == 1 and layout(upos(attrs[0])[0])[0] == [(0, 2), (2, 2)]
     if ok:
         A = strip_ids(attrs[0].term)
@@ -692,7 +695,13 @@ def check_transform_attr(ctx):
                 ok = vals == {0x800E: True, 14: True, 0x800F: False, 0x000D: False, 0x8000 | 15: False}
     ctx.check(ok, 'W2', 'Transform attribute: type 14 (KEYLEN, with or without the AF bit) carries the key length in its value field',
               key=('W2', 'keylen-decode'), site=ctx.site(pf, pf.node))
-    ctx.check(len(cur) == 1 and cur[0][2] == const(4) and cur[0][3] == const(4), 'W2',
+    step_ok = len(cur) == 1 and cur[0][2] == const(4) and cur[0][3] == const(4)
+    if not step_ok and len(attrs) == 1:
+        pos = strip_ids(upos(attrs[0])[2])
+        if pos[0] == 'elem':        # the same walk as a counting loop: positions 4, 8, ... below len(data)
+            ra = [strip_ids(x) for x in tq.args(pos[1]).values()]
+            step_ok = len(ra) == 3 and ra[0] == const(4) and ra[2] == const(4) and ra[1] == strip_ids(D.expr('len(%s)' % d[1]))
+    ctx.check(step_ok, 'W2',
               'Transform attributes are 4-octet TV attributes following the 4 fixed octets', key=('W2', 'attr-step'), site=ctx.site(pf, pf.node))
     pk, rest = first_pack(ctx.sval(tb).ret())
     me = ('param', 'self')
